@@ -350,7 +350,7 @@ pub fn run_c15(seed: u64, shard: u64, requests: u64, rep: &mut Report) {
     let rt = tokio::runtime::Builder::new_multi_thread().worker_threads(3).enable_all().build().unwrap();
     let r = rep.p("C15");
     let res = tower::run_session(&chain, &node, &cfg, |s| {
-        let api = s.api.clone();
+        let api = s.api.local();
         let (addr, shutdown) = match rt.block_on(start(api)) {
             Ok(x) => x,
             Err(e) => {
